@@ -18,32 +18,28 @@
      with len(x) entries as MLMatrix._matvec does today), ReorderS/ReorderData, the
      mesh-index searchsorted loop of compute_sparsity_ij, sequential_bidx.
 
-   Modes (constant Mode):
+   A run explores a SUITE (constant Suite) = a set of families; the family is chosen in the initial
+   state (variable fam) and fixes mode, number of levels, block shapes, pattern alphabet, bidx order,
+   which row/column subsets and level permutations are emitted, and whether the odometer machine runs.
+   Modes:
      "ml"     Init = empty structure; AddLevel(p) appends a level pattern (BFS: every structure
               over the alphabet; -simulate: random structures).  Complete structures are
-              checked (CaseOK invariants) and emitted (EmitCase); with RunLoop = TRUE the
+              checked (invariants below) and emitted (EmitCase); with loop = TRUE the
               odometer machine is run on every complete structure for both lower_tri values.
      "kv"     one initial state per ordered pair of knot vectors
      "reidx"  one initial state per tuple of block sizes
-     "pat"    one initial state per (n, symmetric pattern) and per banded (n, bw)          *)
+     "pat"    one initial state per (n, symmetric pattern), banded (n, bw), dense (m, n)      *)
 EXTENDS Integers, Sequences, FiniteSets, SequencesExt, FiniteSetsExt, Functions, TLC, Emit
 
-CONSTANTS Mode,       \* "ml" | "kv" | "reidx" | "pat"
-          L,          \* number of levels ("ml")
-          ShapeRows,  \* decimal digits, from the left: rows of the blocks on level 1..L
-          ShapeCols,  \* same for the columns
-          Alpha,      \* "all" | "reduced": pattern alphabet per level
-          Order,      \* "row" | "col" | "rev": order in which bidx lists a level pattern
+CONSTANTS Suite,      \* name of the set of families explored by this run (see Families)
           Buggy,      \* ml_nonzero_nd initial column cursor from level 0 (today's code)
           BuggyY,     \* _matvec output allocated with len(x) entries (today's code)
-          RunLoop,    \* run the odometer machine on complete structures
           DoEmit,     \* emit CASE/KV/REIDX/PAT records
-          Subsets,    \* "perm" | "all" | "sample" | "few": row/column subsets per structure
-          Perms,      \* "all" (every permutation for L <= 3, four beyond) | "few" (reversal only)
           Part, NParts, \* split of the structure space by the first-level pattern
           Seed
 
-VARIABLES st,         \* "ml": the structure built so far; other modes: the case descriptor
+VARIABLES fam,        \* the family (record), constant along a behaviour
+          st,         \* "ml": the structure built so far; other modes: the case descriptor
           pc,         \* "build" | "emit" | "carry" | "done" | Mode
           lower,      \* lower_tri flag of the running odometer
           cur,        \* cur_idx
@@ -51,7 +47,79 @@ VARIABLES st,         \* "ml": the structure built so far; other modes: the case
           kk,         \* loop variable of the carry loop (k+1)
           out         \* results written so far: sequence of <<I,J>>
 
-vars == <<st, pc, lower, cur, bi, bj, kk, out>>
+vars == <<fam, st, pc, lower, cur, bi, bj, kk, out>>
+
+\* the parameters of the family
+Mode      == fam.mode       \* "ml" | "kv" | "reidx" | "pat"
+L         == fam.L          \* number of levels ("ml")
+ShapeRows == fam.rows       \* decimal digits, from the left: rows of the blocks on level 1..L
+ShapeCols == fam.cols       \* same for the columns
+Alpha     == fam.alpha      \* "all" | "reduced": pattern alphabet per level (kv: all / degree 1..2)
+Order     == fam.order      \* "row" | "col" | "rev": order in which bidx lists a level pattern
+Subsets   == fam.subsets    \* "perm" | "all" | "sample" | "few": row/column subsets per structure
+Perms     == fam.perms      \* "all" (every permutation for L <= 3, four beyond) | "few" (reversal only)
+RunLoop   == fam.loop       \* run the odometer machine on complete structures
+
+ML(name, l, rows, cols, alpha, order, subsets, perms) ==
+  [name |-> name, mode |-> "ml", L |-> l, rows |-> rows, cols |-> cols, alpha |-> alpha, order |-> order,
+   subsets |-> subsets, perms |-> perms, loop |-> FALSE]
+Loop(f) == [f EXCEPT !.loop = TRUE]
+Other(mode, alpha) == [ML(mode, 1, 1, 1, alpha, "row", "few", "few") EXCEPT !.mode = mode]
+
+F2x2L1 == ML("2x2-L1", 1, 2, 2, "all", "row", "perm", "all")
+F2x2L2 == ML("2x2-L2", 2, 22, 22, "all", "row", "perm", "all")
+F2x2L3(sub) == ML("2x2-L3", 3, 222, 222, "all", "row", sub, "all")
+F2x2L4(alpha, sub, perms) == ML("2x2-L4", 4, 2222, 2222, alpha, "row", sub, perms)
+TwoLevel(sub, perms) ==
+  {ML("2x3.3x2", 2, 23, 32, "all", "row", sub, perms), ML("3x2.3x2", 2, 33, 22, "all", "row", sub, perms),
+   ML("2x3.2x3", 2, 22, 33, "all", "row", sub, perms), ML("3x3.2x2", 2, 32, 32, "all", "row", sub, perms),
+   ML("3x2.2x3", 2, 32, 23, "all", "row", sub, perms), ML("2x2.3x2", 2, 23, 22, "all", "row", sub, perms),
+   ML("2x3.2x2", 2, 22, 32, "all", "row", sub, perms)}
+F3x3L2 == ML("3x3.3x3", 2, 33, 33, "all", "row", "few", "few")
+SimFamilies ==
+  {F2x2L4("all", "sample", "all"),
+   ML("2x2-L4-col", 4, 2222, 2222, "all", "col", "sample", "all"),
+   ML("2x2-L3-rev", 3, 222, 222, "all", "rev", "sample", "all"),
+   ML("mixed-L4", 4, 2312, 3221, "all", "row", "sample", "all"),
+   ML("2x2-L5", 5, 22222, 22222, "all", "row", "sample", "all"),
+   ML("mixed-L5", 5, 21322, 22231, "all", "row", "sample", "all"),
+   ML("2x2-L6", 6, 222222, 222222, "all", "row", "few", "few"),
+   ML("mixed-L6", 6, 221322, 232212, "all", "row", "few", "few"),
+   ML("mixed-L3", 3, 232, 323, "all", "row", "sample", "all"),
+   ML("tall-L3", 3, 322, 221, "all", "row", "sample", "all")}
+SmallFamilies ==
+  {F2x2L1, F2x2L2, ML("2x3-L1", 1, 2, 3, "all", "row", "perm", "all"), ML("3x2-L1", 1, 3, 2, "all", "row", "perm", "all"),
+   ML("3x3-L1", 1, 3, 3, "all", "row", "perm", "all"), ML("2x2-L2-col", 2, 22, 22, "all", "col", "perm", "all"),
+   ML("2x2-L2-rev", 2, 22, 22, "all", "rev", "perm", "all"), Other("reidx", "all"), Other("pat", "all")}
+
+Families ==
+  CASE Suite = "small"        -> SmallFamilies
+    [] Suite = "kv"           -> {Other("kv", "all")}
+    [] Suite = "kv-reduced"   -> {Other("kv", "reduced")}
+    [] Suite = "L3-sample"    -> {F2x2L3("sample")}
+    [] Suite = "L3-all"       -> {F2x2L3("all")}
+    [] Suite = "L3-orders"    -> {ML("2x2-L3-col", 3, 222, 222, "all", "col", "sample", "all"),
+                                  ML("2x2-L3-rev", 3, 222, 222, "all", "rev", "sample", "all")}
+    [] Suite = "L4-reduced"   -> {F2x2L4("reduced", "sample", "all")}
+    [] Suite = "L4-orders"    -> {ML("2x2-L4-col", 4, 2222, 2222, "reduced", "col", "few", "few"),
+                                  ML("2x2-L4-rev", 4, 2222, 2222, "reduced", "rev", "few", "few")}
+    [] Suite = "L4-all"       -> {F2x2L4("all", "few", "few")}
+    [] Suite = "two-level"    -> TwoLevel("sample", "all")
+    [] Suite = "two-level-sim" -> TwoLevel("sample", "all") \cup {F3x3L2}
+    [] Suite = "3x3.3x3"      -> {F3x3L2}
+    [] Suite = "sim"          -> SimFamilies
+    [] Suite = "odo-quick"    -> {Loop(ML("2x2-L3", 3, 222, 222, "reduced", "row", "few", "few")),
+                                  Loop(ML("2x3.3x2", 2, 23, 32, "reduced", "row", "few", "few")),
+                                  Loop(ML("2x2-L2", 2, 22, 22, "all", "rev", "few", "few"))}
+    [] Suite = "odo-L4"       -> {Loop(F2x2L4("reduced", "few", "few"))}
+    [] Suite = "odo-thorough" -> {Loop(F2x2L3("few")), Loop(F2x2L2),
+                                  Loop(ML("2x3.3x2", 2, 23, 32, "all", "row", "few", "few")),
+                                  Loop(ML("mixed-L4", 4, 2312, 3221, "reduced", "row", "few", "few"))}
+    [] Suite = "defs-quick"   -> {ML("2x2-L3", 3, 222, 222, "reduced", "row", "sample", "all"),
+                                  ML("2x3.3x2", 2, 23, 32, "reduced", "row", "sample", "all"),
+                                  ML("3x2.2x2", 2, 32, 22, "reduced", "row", "sample", "all")}
+    [] Suite = "defs-thorough" -> {F2x2L3("sample"), F2x2L4("reduced", "sample", "all")} \cup TwoLevel("sample", "all")
+    [] Suite = "neg-matvec"   -> {ML("3x2.2x2", 2, 32, 22, "reduced", "row", "few", "few")}
 
 -----------------------------------------------------------------------------
 (* integers, index arithmetic *)
@@ -284,7 +352,7 @@ AddLevel(p) ==
   /\ pc = "build" /\ Len(st) < L
   /\ (Len(st) = 0) => ((p % NParts) = Part)
   /\ st' = Append(st, Level(Len(st) + 1, p))
-  /\ UNCHANGED <<pc, lower, cur, bi, bj, kk, out>>
+  /\ UNCHANGED <<fam, pc, lower, cur, bi, bj, kk, out>>
 
 \* mlmatrix_cy.pyx 346-357: the initialisation loop (done = (N == 0) is impossible: patterns non-empty)
 Begin(lw) ==
@@ -294,7 +362,7 @@ Begin(lw) ==
   /\ bi' = [i \in 1..L |-> st[i].bidx[1][1]]
   /\ bj' = [i \in 1..L |-> IF Buggy THEN st[1].bidx[1][2] ELSE st[i].bidx[1][2]]
   /\ out' = <<>> /\ kk' = 0 /\ pc' = "emit"
-  /\ UNCHANGED st
+  /\ UNCHANGED <<fam, st>>
 
 \* 366-375: head of the while loop
 CurI == Ravel(bi, Ms(st))
@@ -303,7 +371,7 @@ EmitStep ==
   /\ pc = "emit"
   /\ out' = IF ~lower \/ CurJ <= CurI THEN Append(out, <<CurI, CurJ>>) ELSE out
   /\ kk' = L /\ pc' = "carry"
-  /\ UNCHANGED <<st, lower, cur, bi, bj>>
+  /\ UNCHANGED <<fam, st, lower, cur, bi, bj>>
 
 \* 378-390: one iteration of `for k in reversed(range(L))` (kk = k + 1)
 CarryStep ==
@@ -322,7 +390,7 @@ CarryStep ==
           /\ bi' = [bi EXCEPT ![kk] = st[kk].bidx[1][1]]
           /\ bj' = [bj EXCEPT ![kk] = st[kk].bidx[1][2]]
           /\ kk' = kk - 1 /\ pc' = "carry"
-  /\ UNCHANGED <<st, lower, out>>
+  /\ UNCHANGED <<fam, st, lower, out>>
 
 NextML == (\E p \in (IF pc = "build" /\ Len(st) < L THEN AlphaSet(Len(st) + 1) ELSE {}) : AddLevel(p)) \/ (\E lw \in BOOLEAN : Begin(lw)) \/ EmitStep \/ CarryStep
 
@@ -400,7 +468,7 @@ EmitCase == (Ready /\ DoEmit) =>
       coltab == [c \in 1..N |-> ForRow(T, c - 1)]
       split == (h % Max2(L - 1, 1)) + 1
   IN Emit("CASE",
-       [L |-> L, h |-> h, path |-> Dispatch(S),
+       [fam |-> fam.name, L |-> L, h |-> h, path |-> Dispatch(S),
         bs |-> [k \in 1..L |-> <<S[k].m, S[k].n>>],
         bidx |-> [k \in 1..L |-> S[k].bidx],
         nz0 |-> nz,
@@ -510,7 +578,8 @@ EmitPat == (Mode = "pat" /\ DoEmit) =>
     [] OTHER -> Emit("PAT", [kind |-> "dense", m |-> st[2], n |-> st[3], ij |-> CellsRow(st[2], st[3])])
 
 -----------------------------------------------------------------------------
-Init == CASE Mode = "ml" -> InitML [] Mode = "kv" -> InitKV [] Mode = "reidx" -> InitReidx [] OTHER -> InitPat
+Init == /\ fam \in Families
+        /\ CASE Mode = "ml" -> InitML [] Mode = "kv" -> InitKV [] Mode = "reidx" -> InitReidx [] OTHER -> InitPat
 Next == Mode = "ml" /\ NextML
 Spec == Init /\ [][Next]_vars
 =============================================================================
